@@ -219,3 +219,36 @@ prop('C12',
              'thorough': 'A: 1..3 channels, 0..2 frames, 2 windows; chain depth 2 over A with 0..2 frames and 1 window'},
      level_note='The reference model uses Go append/copy/slice expressions, which are primitives of the encoder (and of the native replay), so growth capacities agree by construction. Append is compared only for frame-aligned operands and non-overlapping spare regions, as the property states.',
      outside=['more than 4 live views / larger shapes', 'Append with unaligned lengths (unspecified)', 'Append whose source overlaps the destination spare capacity (excluded by C03/C12, other than self-append)'])
+
+prop('C18', opts={'abstract_fp': True, 'pool_mode': 'hit'},
+     harnesses=[{'name': 'C18_Ops', 'types': {'quick': ['int8', 'uint64', 'float32', 'float64'], 'thorough': ALL},
+                 'params': {'quick': {'MaxC': 2, 'MaxK': 2}, 'thorough': {'MaxC': 3, 'MaxK': 3}},
+                 'splits': [{'op': o} for o in range(8)],
+                 'covers': ['get-set', 'append-sample', 'read-write', 'striped', 'append-within-capacity', 'channel-view', 'slice', 'pool-cycle']}] +
+     [{'name': 'C18_' + fn, 'types': {'quick': conv_pairs(fn, 1)[:1], 'thorough': conv_pairs(fn, 2)},
+       'params': {'quick': {'MaxC': 2, 'MaxK': 2}, 'thorough': {'MaxC': 3, 'MaxK': 3}}} for fn in CONVS],
+     bounds={'quick': 'every window of a buffer with 1..2 channels and 0..2 frames; input slices of every length; symbolic sample values; each operation group run once inside an allocation counter; pool cycle with the pooled buffer handed back (steady state)',
+             'thorough': '1..3 channels, 0..3 frames; all 13 element types; 4 type pairs per conversion'},
+     level_text='Symbolic execution of the real code with a ghost allocation counter: every SSA instruction that can allocate (make with non-zero capacity, growing append, heap-flagged Alloc, closure with bindings, boxing of a non-pointer value) executed inside the measured region is counted on every feasible path within the bounds; a candidate is reported only if the native build measures an allocation too (runtime.MemStats) on the replayed input.',
+     level_note='Heap allocation is finally decided by the gc compiler (escape analysis, inlining), which works on a different IR: the SSA-level rule can miss an allocation the compiler introduces (e.g. a large local moved to the heap) - outside the claim - and candidates the compiler optimises away are filtered by the native measurement, so they never raise an alarm.',
+     outside=['allocation decisions of the gc compiler beyond the SSA-level rule', 'lengths beyond the bound (no size-dependent allocation site exists on these paths)'])
+
+prop('C19', opts={'threads': True, 'abstract_fp': True}, race_replay=True,
+     harnesses=[{'name': 'C19_Readers', 'types': {'quick': ['int8', 'float64'], 'thorough': QUICK_T},
+                 'params': {'quick': {'MaxC': 2, 'MaxK': 2, 'Readers': 2}, 'thorough': {'MaxC': 2, 'MaxK': 2, 'Readers': 3}}, 'covers': ['joined', '@par-joined']},
+                {'name': 'C19_Writers', 'types': {'quick': ['int8', 'float64'], 'thorough': QUICK_T},
+                 'params': {'quick': {'MaxC': 2, 'MaxK': 2}, 'thorough': {'MaxC': 3, 'MaxK': 3}}, 'covers': ['joined', '@par-joined']}],
+     bounds={'quick': 'readers: 2 goroutines, each running every read-only entry point (getters, Sample, Read, ReadStriped, Slice, Channel view, BufferIndex) with arbitrary arguments on one shared window of a buffer with 1..2 channels, 1..2 frames; writers: frame ranges [0,a) [a,b) [b,K) for every a<=b<=K<=2, two writers (Write / WriteStriped / SetSample loops / channel-view SetSample) and one reader; all orders of the goroutines; every pair of logged accesses checked for an unordered conflict',
+             'thorough': '3 readers; writers with 1..3 channels and 1..3 frames'},
+     level_note='Goroutines contain no synchronisation, so every cross-goroutine access pair is concurrent: race freedom is decided by a solver query per pair of accesses to the same object (can the two index expressions be equal?), results are compared with the sequential run. 16 goroutines add no pair types beyond those of 2-3 goroutines running the same entry points but are formally outside the bound.',
+     outside=['more than 3 goroutines', 'conversion functions as concurrent readers (they read through the same Sample/Len accessors)', 'larger shapes'])
+
+prop('C11', opts={'threads': True, 'pool_mode': 'all'}, race_replay=True, stress_replay=True,
+     harnesses=[{'name': 'C11_Workers', 'types': {'quick': ['int8', 'float64'], 'thorough': ['int8', 'uint16', 'float64']},
+                 'params': {'quick': {'MaxPoolC': 2, 'MaxPoolK': 1, 'G': 2, 'M': 1}, 'thorough': {'MaxPoolC': 2, 'MaxPoolK': 1, 'G': 3, 'M': 1}}, 'covers': ['joined', '@par-joined']},
+                {'name': 'C11_Workers', 'types': {'quick': ['int8'], 'thorough': ['int8', 'float64']},
+                 'params': {'quick': {'MaxPoolC': 1, 'MaxPoolK': 1, 'G': 2, 'M': 2}, 'thorough': {'MaxPoolC': 2, 'MaxPoolK': 1, 'G': 2, 'M': 2}}, 'covers': ['joined']}],
+     bounds={'quick': 'G=2 goroutines x M=1 cycle (allocators with 1..2 channels, capacity 0..1 frame, every length) and G=2 x M=2 (1 channel, capacity 0..1); allocator shared by pointer and by value copies; every interleaving of the pool operations (scheduling points: Pool.Get, Pool.Put, goroutine start/end) and every pool outcome (any pooled buffer, or a new one as after a GC); per path: exclusivity at every Get, freshness, stamp integrity, and a solver query for every unordered conflicting access pair',
+             'thorough': 'G=3 x M=1 and G=2 x M=2 with 1..2 channels'},
+     level_note='sync.Pool itself (per-P caches, victim cache, atomics), the Go scheduler and the garbage collector are not encoded: they are replaced by a linearizable multiset whose Get may return any pooled item or a freshly allocated one, with the documented Put->Get happens-before edge. GOMAXPROCS and forced GCs of the property are subsumed by that nondeterminism; G up to 64 is reduced to G<=3. Segments between pool operations run atomically, justified by the race check itself (DRF-SC).',
+     outside=['sync.Pool internals, scheduler, GC', 'G > 3 goroutines, M > 2 cycles', 'larger buffers'])
